@@ -1,7 +1,7 @@
 (** * Extract.v — the single extraction file.  [ExtrOcamlBasic] only; [Z], [positive],
     [N] and [nat] stay inductive.  No [Extract Constant]. *)
 From Coq Require Import ZArith List Extraction ExtrOcamlBasic.
-From HPBF Require Import Cell IO BF Expr Inplace IR BC Parse Machines Tape SmallVec BCWf BCRaw X86 X86Call X86Mov Cli Forms.
+From HPBF Require Import Cell IO BF Expr Inplace IR BC Parse Machines Tape SmallVec BCWf BCRaw X86 X86Call X86Mov TV Cli Forms.
 Extraction Language OCaml.
 Extraction "extract/model.ml"
   Cell.wadd Cell.wmul Cell.wneg Cell.wand Cell.wshr Cell.wshl Cell.tz Cell.is_odd
@@ -24,6 +24,7 @@ Extraction "extract/model.ml"
   BCRaw.r_run BCRaw.r_spec BCRaw.rops_ok
   X86.form_ok X86.srun X86.sst0 X86.form_spec X86.same_poly
   X86Call.call_ok X86Call.yrun X86Call.ksym0 X86Call.br_ok
+  TV.tv_check TV.tv_block TV.st0
   X86Mov.mov_ok X86Mov.mov_template X86Mov.limit_ok X86Mov.frame_ok X86Mov.mov_unsafe_ok
   Cli.cli_run Cli.decide Cli.spec_table Cli.spec_defaults Cli.spec_widths
   Forms.reorder Forms.jit_covers Forms.int_covers Forms.pre_shape Forms.unzero_instr.
